@@ -45,6 +45,33 @@ fn main() {
         let text = std::fs::read_to_string(&path).expect("replay file");
         let v: serde_json::Value = serde_json::from_str(&text).expect("json");
         let case = Case::from_json(&v).expect("case");
+        if id == "C01" {
+            // crash-isolated: a stack overflow or abort must not take this process down
+            let dir = std::env::temp_dir().join(format!("nfv-replay-{}", std::process::id()));
+            let _ = std::fs::create_dir_all(&dir);
+            let mut bad = None;
+            for profile in ["release", "o0"] {
+                match nfv::props::c01::exec_in_worker(profile, &case, dir.to_str().unwrap(), "replay") {
+                    nfv::props::c01::ExecResult::Pass => println!("replay [{} profile]: PASS", profile),
+                    nfv::props::c01::ExecResult::Capped => println!("replay [{} profile]: resource cap (C15 territory)", profile),
+                    nfv::props::c01::ExecResult::Hang => {
+                        println!("replay [{} profile]: no result within the watchdog - inconclusive", profile);
+                        let _ = std::fs::remove_dir_all(&dir);
+                        std::process::exit(2);
+                    }
+                    nfv::props::c01::ExecResult::Panic(m) | nfv::props::c01::ExecResult::Crash(m) => {
+                        println!("replay [{} profile]: {}", profile, m);
+                        bad = Some(m);
+                    }
+                }
+            }
+            let _ = std::fs::remove_dir_all(&dir);
+            if bad.is_some() {
+                println!("VIOLATION property={} replay={}", id, path);
+                std::process::exit(1);
+            }
+            std::process::exit(0);
+        }
         let o = nfv::engine::guarded(&def.oracle, &case);
         match o.verdict {
             Verdict::Pass => {
